@@ -102,7 +102,7 @@ class G:
         if k == NUM:
             prods = [(3, self.p_arith), (1, self.p_neg), (2, self.p_if), (2, self.p_path), (2, self.p_index), (2, self.p_call),
                      (2, self.p_count), (1, self.p_sum), (1, self.p_strlen), (2, self.p_ctxpath), (1, self.p_leaf),
-                     (1, self.p_closure), (1, self.p_closure_loop), (1, self.p_shadow_builtin), (1, self.p_recursion), (2, self.p_hetero)]
+                     (1, self.p_closure), (1, self.p_closure_loop), (1, self.p_shadow_builtin), (1, self.p_recursion), (2, self.p_hetero), (2, self.p_deep)]
         elif k == STR:
             prods = [(3, self.p_concat), (2, self.p_if), (2, self.p_path), (2, self.p_index), (2, self.p_call), (2, self.p_ctxpath),
                      (1, self.p_leaf)]
@@ -413,6 +413,36 @@ class G:
         return ["if", [s.choice(["some", "every"]), [[v, hs]], ["cmp", "=", ["arith", op, ["path", ["name", v], key], other], ["num", "1"]]],
                 ["num", "1"], ["num", "0"]]
 
+    def p_deep(self, k, d, env):
+        """`ds` is bound to a list of contexts whose entry `n9` holds a context (entries d7, d8; in half of the cases one level further
+        down, under `n8`); the names d7, d8, n8 occur nowhere else in the scope. The innermost entry is reached by path (from an indexed
+        item, from a loop variable, inside a filter over the list) and is directly followed by an operator."""
+        s = self.src
+        dk = env.get("ds")
+        if not (isinstance(dk, tuple) and dk and dk[0] == "deep"):
+            return self.p_leaf(k, d, env)
+        chain = list(dk[1])                    # e.g. ["n9", "d7"] or ["n9", "n8", "d7"]
+        if s.bool(0.4):
+            chain[-1] = "d8"
+        other = self.expr(NUM, d - 1, {n: kk for n, kk in env.items() if n != "ds"}) if s.bool(0.4) else ["num", s.choice(NUM_LITS)]
+        op = s.choice(["*", "+", "-", "/"])
+        ds = ["name", "ds"]
+
+        def down(head, names):
+            for n in names:
+                head = ["path", head, n]
+            return head
+        form = s.choice(["index-path", "filter", "for", "some"])
+        if form == "index-path":
+            return ["arith", op, down(["filter", ds, ["idx", ["num", str(s.int(1, 3))]]], chain), other]
+        if form == "filter":
+            return ["call", ["name", "count"], [["filter", ds, ["cmp", ">", ["arith", op, down(["name", chain[0]], chain[1:]), other], ["num", "5"]]]]]
+        v = self.var(env)
+        if form == "for":
+            return ["call", ["name", "sum"], [["for", [[v, ["dl", ds]]], ["arith", op, down(["name", v], chain), other]]]]
+        return ["if", [s.choice(["some", "every"]), [[v, ds]], ["cmp", "=", ["arith", op, down(["name", v], chain), other], ["num", "1"]]],
+                ["num", "1"], ["num", "0"]]
+
     def p_recursion(self, k, d, env):
         """well-founded recursion by self-application: (function(sf, sn) sf(sf, sn))(function(sg, sn) if sn <= 0 then B else sn OP sg(sg, sn - 1), N)
         -- terminates only because the branch of `if` that is not taken is not evaluated"""
@@ -507,6 +537,17 @@ class G:
             bindings.append(["hs", {"l": items}])
             later = sorted({kk for it in items[1:] for kk, _ in it["c"]} - {"u1"})
             env["hs"] = ("hetero", tuple(later))
+        if s.bool(0.3):
+            # a list of contexts with a context two or three levels below the item; the names n8, d7, d8 occur nowhere else
+            three = s.bool(0.5)
+            items = []
+            for _ in range(s.int(1, 3)):
+                inner = {"c": [["d7", {"n": s.choice(NUM_LITS)}], ["d8", {"n": s.choice(NUM_LITS)}]]}
+                if three:
+                    inner = {"c": [["n8", inner]]}
+                items.append({"c": [["u1", {"n": s.choice(NUM_LITS)}], ["n9", inner]]})
+            bindings.append(["ds", {"l": items}])
+            env["ds"] = ("deep", ("n9", "n8", "d7") if three else ("n9", "d7"))
         if s.bool(0.1):
             # a name of the input context coincides with a built-in function: it shadows the built-in
             if s.bool(0.7):
